@@ -22,7 +22,7 @@ RULE = ("(sched) configurations of 2-5 client goroutines on the real actor/regis
         "spawn the same id at once): exhaustive over a 7-operation alphabet up to length 3 (4 in the "
         "thorough tier), scenario classes, random histories; a case is non-trivial when the model run reaches a proof-relevant "
         "situation (losing add, respawn after Remove, lookup between insert and Start, duplicate with pending messages, "
-        "adoption by SpawnChild, spawn inside a held shutdown, ...)")
+        "SpawnChild against an incumbent that is not the caller's child, spawn inside a held shutdown, ...)")
 EXHAUSTIVE = False
 TRUSTED_BASE = [
     "Coq 8.16.1 kernel; vm_compute (model replay of the explored schedules and histories); no native_compute",
@@ -209,9 +209,7 @@ class Sim:
 
     def spawn(self, i, parent):
         if self.live(i):
-            if parent is not None and i not in self.kids.setdefault(parent, []):
-                self.kids[parent].append(i)
-            return
+            return          # a duplicate leaves no trace (SpawnChild records its child only once it is registered: D21)
         self.runs[i] = self.runs.get(i, 0) + 1
         self.procs[i] = {"parent": parent, "queue": 0, "blocked": False, "stopping": False}
         self.kids[i] = []
@@ -359,7 +357,7 @@ SCENARIOS = [
      ("release", 0), ("send", 0), ("stop", 0), ("spawn", 0), ("send", 0)],
     [("spawn", 0), ("spawnchild", 0, 2), ("block", 2), ("send", 2), ("spawn", 2), ("send", 2), ("spawn", 2),
      ("release", 2), ("spawnchild", 0, 2), ("send", 2), ("stop", 0)],
-    # children: duplicate SpawnChild, top-level spawn under the child's path, adoption, stale entry
+    # children: duplicate SpawnChild, top-level spawn under the child's path (no adoption of the incumbent since D21)
     [("spawn", 0), ("spawnchild", 0, 2), ("spawnchild", 0, 2), ("spawn", 2), ("send", 2), ("stop", 2), ("spawnchild", 0, 2),
      ("send", 2), ("stop", 0), ("get", 2), ("spawn", 2), ("spawn", 0), ("spawnchild", 0, 2), ("send", 2), ("stop", 2),
      ("spawnchild", 0, 2), ("send", 2), ("stop", 0), ("get", 2)],
@@ -396,7 +394,7 @@ class Respawn(Part):
     exec_module = "RespawnExec"
     shard = 120
     branch_names = {1: "duplicate_top_level", 2: "duplicate_child", 3: "respawn_after_stop", 4: "duplicate_with_pending_messages",
-                    5: "duplicate_child_adopts_incumbent", 6: "duplicate_against_actor_in_held_shutdown",
+                    5: "duplicate_child_against_incumbent_that_is_not_its_child", 6: "duplicate_against_actor_in_held_shutdown",
                     7: "spawn_child_over_stale_children_entry", 8: "top_level_duplicate_against_child",
                     9: "lookup_of_actor_in_held_shutdown", 10: "send_to_busy_actor", 11: "spawn_of_free_id_during_held_shutdown",
                     12: "stop_with_children", 13: "stop_of_unregistered_id", 14: "shutdown_held_in_own_Stopped",
